@@ -236,10 +236,18 @@ def run(ck):
         if big:
             cfg.buf = rnd.choice([64, 128, 256])
             cfg.maxbuf = rnd.choice([-1, -1, 1 << 20, cfg.buf * 16, cfg.buf])
-        log = LL.PartitionLog(rnd, big=big)
+        long = (not big) and rnd.random() < 0.3          # a long log against a small buffer: many replies per start position
+        if long:
+            cfg.buf = rnd.choice([256, 512, 1024])
+            cfg.maxbuf = -1
+            log = LL.PartitionLog(rnd, n=rnd.randint(80, 150))
+        else:
+            log = LL.PartitionLog(rnd, big=big)
         store = LL.OffsetStore(rnd.choice([None, None] + [o for (o, k, v) in log.entries][:6]))
         length = rnd.choice([25, 40, 60, 90]) * (2 if thorough else 1)
-        drain = 60 if rnd.random() < 0.5 else 0
+        drain = 300 if long else 80                      # always: the completeness monitor below needs a quiet, fault-free tail
+        if long:
+            ck.hist("long_log_runs")
         events, drv, env = LL.honest_run(rnd, cfg, log, store, length, fault=rnd.choice([0.0, 0.08, 0.2]), drain=drain)
         add("honest", cfg, events, drv, log)
         ck.hist("honest_runs")
@@ -362,7 +370,7 @@ def run(ck):
         "hand-written Gallina model Model/Consumer.v stands for afkak/consumer.py:290-1131 (tie: this run's full-trace correspondence)",
         "message keys/values are outside the Gallina model (offsets only); they are compared on the implementation side with the simulated broker's log",
         "the honest broker and the coordinator store are simulations (harness/props/consumer_log_lib.py) written from the Kafka protocol guide",
-        "theorems assume the interpreter's fuel is not exhausted (run_fuel_ok); fuel 60 sufficed on every generated case (an OFuel output would be reported)",
+        "theorems assume the interpreter's fuel is not exhausted (run_fuel_ok); the harness derives the fuel from the input size and reports any OFuel output",
         "message-set decoding is afkak's real KafkaCodec over bytes from an independent encoder; its outcome is checked against what the broker served",
         "extraction: ExtrOcamlBasic; a sample of cases is re-evaluated inside Coq by vm_compute",
     ]
